@@ -140,6 +140,12 @@ func (fg *FuncGen) Script(blk int) string { return fg.ScriptVia(blk, -1) }
 
 // ScriptVia: like Script, but when via >= 0 only the paths that enter blk through predecessor via.
 func (fg *FuncGen) ScriptVia(blk, via int) string {
+	// via may encode a two-edge path: via = pred + 10000*(predOfPred+1)
+	via2 := -1
+	if via >= 10000 {
+		via2 = via/10000 - 1
+		via = via % 10000
+	}
 	var out strings.Builder
 	if s := fg.segs[-1]; s != nil {
 		out.WriteString(s.String())
@@ -162,7 +168,11 @@ func (fg *FuncGen) ScriptVia(blk, via int) string {
 				}
 			}
 		}
-		if via >= 0 {
+		if via >= 0 && via2 >= 0 {
+			need[blk] = true
+			need[via] = true
+			visit(fg.fn.Blocks[via2])
+		} else if via >= 0 {
 			need[blk] = true
 			visit(fg.fn.Blocks[via])
 		} else {
@@ -174,6 +184,17 @@ func (fg *FuncGen) ScriptVia(blk, via int) string {
 			continue
 		}
 		if s := fg.segs[b.Index]; s != nil {
+			if via2 >= 0 && need != nil && b.Index == via {
+				// middle block of a two-edge path: reached exactly along the edge from via2
+				for _, l := range strings.SplitAfter(s.String(), "\n") {
+					if strings.Contains(l, "; @reachdef") {
+						fmt.Fprintf(&out, "(assert (= reach_%d %s))\n", via, fg.edgeReach(fg.fn.Blocks[via2], b))
+						continue
+					}
+					out.WriteString(l)
+				}
+				continue
+			}
 			if via >= 0 && need != nil && b.Index == blk {
 				// only the paths entering through `via`: the block is reached exactly along that edge
 				// (the other predecessors, and the symbols of their branch conditions, are not in this slice)
@@ -1086,6 +1107,35 @@ func (fg *FuncGen) loopHead(li *loopInfo, fwd []*ssa.BasicBlock, in string, rnam
 				continue
 			}
 			fg.obl("inv.init", fmt.Sprintf("loop%d.inv%d.init", li.ordinal, i+1), li.pos, pick(inv.Tags, tags), t.S, inv.Text)
+		}
+	}
+	// a single entry edge from a block where many paths meet: one obligation per path into that block
+	if len(fwd) == 1 && fg.loops[fwd[0]] == nil && len(fg.fn.Blocks) < 10000 {
+		mid := fwd[0]
+		var preds []*ssa.BasicBlock
+		for _, q := range mid.Preds {
+			if !fg.isBackEdge(q, mid) {
+				if _, ok := fg.reach[q]; ok {
+					preds = append(preds, q)
+				}
+			}
+		}
+		if len(preds) >= 4 {
+			orig := append([]*Obligation{}, fg.obls[firstInit:]...)
+			fg.obls = fg.obls[:firstInit]
+			for _, o := range orig {
+				if o.Guard != li.initReach {
+					fg.obls = append(fg.obls, o)
+					continue
+				}
+				for k, q := range preds {
+					c := *o
+					c.Name = fmt.Sprintf("%s~%d", o.Name, k+1)
+					c.Guard = "(and " + fg.edgeReach(q, mid) + " " + fg.edgeReach(mid, b) + ")"
+					c.Via = mid.Index + 10000*(q.Index+1)
+					fg.obls = append(fg.obls, &c)
+				}
+			}
 		}
 	}
 	// establishment from many entry edges: one obligation per edge, each on the slice of its own edge
